@@ -94,15 +94,22 @@ def walk_tree(children, rel=()):
             yield from walk_tree(c["children"], rel + (c["name"],))
 
 
-def materialize(children, base):
+def materialize(children, base, ext_root=None):
+    """a directory node flagged link=True becomes a symbolic link to a directory with that content
+    created under ext_root (outside the input tree)"""
     os.makedirs(base, exist_ok=True)
     for c in children:
         p = os.path.join(base, c["name"])
         if c["kind"] == "f":
             with open(p, "wb") as f:
                 f.write(c["content"])
+        elif c.get("link") and ext_root is not None:
+            os.makedirs(ext_root, exist_ok=True)
+            target = os.path.join(ext_root, "target_%d_%s" % (len(os.listdir(ext_root)), c["name"]))
+            materialize(c["children"], target, ext_root)
+            os.symlink(target, p, target_is_directory=True)
         else:
-            materialize(c["children"], p)
+            materialize(c["children"], p, ext_root)
 
 
 def permute(children, rng):
@@ -225,7 +232,7 @@ class TreeRun:
         elif c.get("missing"):
             self.kind = "missing"
         else:
-            materialize(c["tree"], self.input_abs)
+            materialize(c["tree"], self.input_abs, os.path.join(root, "ext_targets"))
             self.kind = "dir"
         # decoys
         os.makedirs(os.path.join(root, "decoys"), exist_ok=True)
@@ -294,6 +301,8 @@ class TreeRun:
         cfg = {"input": {}, "rst": {}}
         if not c["auto_exclude"]:
             cfg["input"]["auto_exclude_directories_without_cmake"] = False
+        if c.get("follow"):
+            cfg["input"]["follow_symlinks"] = True
         if c["patterns_cfg"]:
             cfg["input"]["exclude_filters"] = list(c["patterns_cfg"])
         for k, v in c["flags"].items():
@@ -337,7 +346,9 @@ class TreeRun:
                 if n["kind"] == "d":
                     # an output directory inside the input tree is pruned from the walk like an
                     # excluded directory (repair of F29)
-                    if spec.match_file(p + "/") or (self.out_abs is not None and p == self.out_abs):
+                    if spec.match_file(p + "/") or (self.out_abs is not None and p == self.out_abs) \
+                            or (n.get("link") and not self.case.get("follow")):
+                        # ... and so is a symbolic link to a directory that is not followed (repair of F30)
                         tbl.append([list(rel), True])
                 else:
                     if spec.match_file(p):
@@ -463,7 +474,10 @@ def case_json(case):
     def enc(n):
         if n["kind"] == "f":
             return dict(name=n["name"], kind="f", content_hex=n["content"].hex())
-        return dict(name=n["name"], kind="d", children=[enc(x) for x in n["children"]])
+        d = dict(name=n["name"], kind="d", children=[enc(x) for x in n["children"]])
+        if n.get("link"):
+            d["link"] = True
+        return d
     c = dict(case)
     if "tree" in c:
         c["tree"] = [enc(n) for n in c["tree"]]
@@ -476,7 +490,10 @@ def case_from_json(c):
     def dec(n):
         if n["kind"] == "f":
             return dict(name=n["name"], kind="f", content=bytes.fromhex(n["content_hex"]))
-        return dict(name=n["name"], kind="d", children=[dec(x) for x in n["children"]])
+        d = dict(name=n["name"], kind="d", children=[dec(x) for x in n["children"]])
+        if n.get("link"):
+            d["link"] = True
+        return d
     c = dict(c)
     if "tree" in c:
         c["tree"] = [dec(n) for n in c["tree"]]
@@ -488,7 +505,7 @@ def case_from_json(c):
 def tree_listing(children, indent=""):
     out = []
     for c in children:
-        out.append(indent + c["name"] + ("/" if c["kind"] == "d" else ""))
+        out.append(indent + c["name"] + ("/" if c["kind"] == "d" else "") + (" -> (symlink)" if c.get("link") else ""))
         if c["kind"] == "d":
             out += tree_listing(c["children"], indent + "  ")
     return out
